@@ -13,7 +13,7 @@ from harness.props import c11 as C11
 
 RULE = ("elements, substances (formula string or dict of elements) and materials (1..5 substances, dict or '<..>' "
         "string, every norm_type) with a mass density or a number density (sometimes both) and optionally a volume, "
-        "log-uniform positive values, a quarter of the composites modified after construction with add() of a present or a new component, substances with their own proportion != 1, tables of selected components requested before and after the full table, histories (operand with a density in a + b / b + a, add() on the sum, operand re-read), each quantity given in a randomly chosen compatible unit and a second time in another "
+        "log-uniform positive values, a quarter of the composites modified after construction with add() of a present or a new component, substances with their own proportion != 1, tables of selected components requested before and after the full table, the quantity=True form of the table compared cell by cell, quantities handed out by the object (attributes, constructor arguments, table cells, component masses) converted in place before reading / before add() on 30 % of the cases, histories (operand with a density in a + b / b + a, add() on the sum, operand re-read), each quantity given in a randomly chosen compatible unit and a second time in another "
         "unit; corpus first. non-trivial = at least two components and a volume or a non-standard unit; distinct = "
         "canonical JSON of the case")
 ASSUMPTIONS = [
@@ -106,6 +106,9 @@ def gen_case(rng, nat, allsym):
         case["then_add"] = [rng.randrange(8), rng.choice([1, 2, 3, 0.5, 0.25, 10])]
         if rng.random() < 0.4:      # ... or of a new one
             case["then_add"].append("Xe" if case["kind"] == "substance" else "XeF4")
+    if rng.random() < 0.3 and (case.get("rho") or case.get("n")):
+        # quantities handed out by the object are converted in place by the caller before the reads (and before add())
+        case["perturb"] = [w for w in ("attr", "args", "cells", "masses") if rng.random() < 0.6] or ["attr"]
     if case["kind"] != "element" and rng.random() < 0.5:
         # tables of selected components are requested before and after the full table
         case["keeps"] = [[rng.random() < 0.5 for _ in range(8)] for _ in range(2)]
@@ -142,11 +145,51 @@ def build(case, alt=False):
         else:
             expr = {f: p for f, p in case["comps"]}
         obj = Material(expr, natural=case["natural"], norm_type=getattr(Norm, case["mode"]), **kw)
+    if case.get("perturb"):
+        perturb(case, obj, kw)
     if case.get("then_add"):
         keys = list(obj.components.keys())
         ta = case["then_add"]
         obj.add(ta[2] if len(ta) > 2 and ta[2] not in keys else keys[ta[0] % len(keys)], ta[1])
     return obj
+
+
+def perturb(case, obj, kw):
+    """the caller converts, IN PLACE, quantities the object handed out (attributes, the caller's own arguments,
+    table cells, component masses) to other units; what they denote does not change"""
+    def conv(q, unit):
+        try:
+            if q is not None and hasattr(q, "to"):
+                q.to(unit)
+        except Exception:  # noqa
+            pass           # a handed-out object that cannot be converted is not part of this step
+    sel = case["perturb"]
+    if "attr" in sel:
+        conv(getattr(obj, "number_density", None), "m-3")
+        conv(getattr(obj, "mass_density", None), "kg/m3")
+        conv(getattr(obj, "volume", None), "m3")
+        if case.get("vol"):
+            conv(getattr(obj, "mass", None), "kg")
+    if "args" in sel:
+        for k, unit in (("number_density", "mm-3"), ("mass_density", "mg/cm3"), ("volume", "l")):
+            conv(kw.get(k), unit)
+    if case["kind"] == "element":
+        return
+    if "cells" in sel and (case.get("rho") or case.get("n")):
+        dm = obj.data_matter(quantity=True)
+        for k in list(obj.components.keys()):
+            conv(dm[k].n, "m-3")
+            conv(dm[k].rho, "kg/m3")
+            if case.get("vol"):
+                conv(dm[k].M, "kg")
+    if "masses" in sel:
+        dc = obj.data_components(quantity=True)
+        keys = list(obj.components.keys())
+        for j, k in enumerate(keys):
+            if j % 2 == 0:
+                conv(dc[k].mass, "g")
+            else:
+                conv(obj.components[k].component_mass, "kg")
 
 
 def observe(case, obj):
@@ -189,6 +232,12 @@ def observe(case, obj):
     if len(masks) > 1:                          # ... then another selection
         ks = [k for k, b in zip(keys, masks[1]) if b]
         out["sel"].append(table(obj.data_matter(components=ks, quantity=False), ks))
+    # the QUANTITY form of the same table: every cell, converted to the standard unit, is the same number
+    dq = obj.data_matter(quantity=True)
+    out["q_n"] = [float(dq[k].n.value('cm-3')) for k in keys]
+    out["q_rho"] = [float(dq[k].rho.value('g/cm3')) for k in keys]
+    out["q_M"] = [float(dq[k].M.value('g')) for k in keys] if hasvol else None
+    out["q_N"] = [float(dq[k].N.value()) if hasattr(dq[k].N, "value") else float(dq[k].N) for k in keys] if hasvol else None
     out["n_i"] = [float(dm[k].n) for k in keys]
     out["rho_i"] = [float(dm[k].rho) for k in keys]
     out["N_i"] = [float(dm[k].N) for k in keys] if hasvol else None
@@ -326,6 +375,12 @@ def judge(case, imp, res, imp2=None):
         if not rows_ok:
             viol.append(("matter:selection", "data_matter(components=%s) lists %s with rho %s, sum %s; full table: %s rho %s" %
                          (ks, t["keys"], t["rho"], t["sum"]["rho"], imp["keys"], imp["rho_i"])))
+            return viol, dis
+    for qcol, col in (("q_n", "n_i"), ("q_rho", "rho_i"), ("q_N", "N_i"), ("q_M", "M_i")):
+        if imp.get(qcol) is not None and imp.get(col) is not None and \
+                not all(close(a, b) for a, b in zip(imp[qcol], imp[col])):
+            viol.append(("matter:quantity-table", "column %s of data_matter(quantity=True), converted to the standard unit, is %s; data_matter(quantity=False) gives %s" %
+                         (col, imp[qcol], imp[col])))
             return viol, dis
     # ---- oracle: relations of the property on the reported numbers themselves (all modes)
     vstd = case["vol"][0] * factor("vol", case["vol"][1]) if hasvol else None
@@ -501,6 +556,8 @@ def process(ctx, cases):
         ctx.count("volume.%s" % ("yes" if case.get("vol") else "no"))
         if case.get("then_add"):
             ctx.count("modified_with_add")
+        if case.get("perturb"):
+            ctx.count("handed_out_quantities_converted_in_place")
         if case["kind"] == "material":
             ctx.count("mode.%s" % case["mode"])
         if "err" in imp:
